@@ -1,9 +1,15 @@
 
+val negb : bool -> bool
+
 type nat =
 | O
 | S of nat
 
+val fst : ('a1 * 'a2) -> 'a1
+
 val snd : ('a1 * 'a2) -> 'a2
+
+val length : 'a1 list -> nat
 
 val app : 'a1 list -> 'a1 list -> 'a1 list
 
@@ -277,6 +283,9 @@ type byte =
 val of_bits :
   (bool * (bool * (bool * (bool * (bool * (bool * (bool * bool))))))) -> byte
 
+val to_bits :
+  byte -> bool * (bool * (bool * (bool * (bool * (bool * (bool * bool))))))
+
 type positive =
 | XI of positive
 | XO of positive
@@ -290,6 +299,17 @@ type z =
 | Z0
 | Zpos of positive
 | Zneg of positive
+
+val eqb : bool -> bool -> bool
+
+module Nat :
+ sig
+  val eqb : nat -> nat -> bool
+
+  val leb : nat -> nat -> bool
+
+  val ltb : nat -> nat -> bool
+ end
 
 module Pos :
  sig
@@ -328,6 +348,8 @@ module Coq_Pos :
 
   val iter : ('a1 -> 'a1) -> 'a1 -> positive -> 'a1
 
+  val pow : positive -> positive -> positive
+
   val compare_cont : comparison -> positive -> positive -> comparison
 
   val compare : positive -> positive -> comparison
@@ -356,6 +378,10 @@ module N :
   val eqb : n -> n -> bool
 
   val leb : n -> n -> bool
+
+  val ltb : n -> n -> bool
+
+  val pow : n -> n -> n
 
   val pos_div_eucl : positive -> n -> n * n
 
@@ -411,11 +437,27 @@ module Z :
   val modulo : z -> z -> z
  end
 
+val rev : 'a1 list -> 'a1 list
+
 val map : ('a1 -> 'a2) -> 'a1 list -> 'a2 list
+
+val flat_map : ('a1 -> 'a2 list) -> 'a1 list -> 'a2 list
+
+val fold_left : ('a1 -> 'a2 -> 'a1) -> 'a2 list -> 'a1 -> 'a1
+
+val existsb : ('a1 -> bool) -> 'a1 list -> bool
+
+val forallb : ('a1 -> bool) -> 'a1 list -> bool
+
+val filter : ('a1 -> bool) -> 'a1 list -> 'a1 list
+
+val find : ('a1 -> bool) -> 'a1 list -> 'a1 option
 
 val firstn : nat -> 'a1 list -> 'a1 list
 
 val skipn : nat -> 'a1 list -> 'a1 list
+
+val eqb0 : byte -> byte -> bool
 
 val to_N0 : byte -> n
 
@@ -445,6 +487,28 @@ val n2b : n -> byte
 val z2b : z -> byte
 
 val bs : string -> bytes
+
+val bytes_eqb : bytes -> bytes -> bool
+
+val is_upper : byte -> bool
+
+val is_digit : byte -> bool
+
+val is_ows : byte -> bool
+
+val to_lower : byte -> byte
+
+val eq_ic : bytes -> bytes -> bool
+
+val drop_while : ('a1 -> bool) -> 'a1 list -> 'a1 list
+
+val trim_start : (byte -> bool) -> bytes -> bytes
+
+val trim_end : (byte -> bool) -> bytes -> bytes
+
+val trim_both : (byte -> bool) -> bytes -> bytes
+
+val split_on : byte -> bytes -> bytes list
 
 val sECS_PER_DAY : z
 
@@ -485,3 +549,195 @@ val cache_init : cache
 val get_date_now : cache -> z -> cache * bytes
 
 val cache_run : cache -> z list -> bytes list
+
+type seg =
+| Lit of bytes
+| Param of bytes
+| Wild
+| DWild
+
+type prec =
+| PDW
+| PW
+| PP
+| PL
+
+val prec_rank : prec -> nat
+
+val prec_eqb : prec -> prec -> bool
+
+val prec_gtb : prec -> prec -> bool
+
+type pattern = { segs : seg list; last_prec : prec }
+
+val precedence_of : seg option -> prec
+
+val parse_route_segment : bytes -> seg
+
+val strip_slash : bytes -> bytes
+
+val last_opt : 'a1 list -> 'a1 option
+
+val parse_route : bytes -> bytes * pattern
+
+val seg_eqb : seg -> seg -> bool
+
+val segs_eqb : seg list -> seg list -> bool
+
+val pattern_eqb : pattern -> pattern -> bool
+
+val is_lit : seg -> bool
+
+type bucket = { literals : (bytes * n) list; patterns : (pattern * n) list }
+
+val empty_bucket : bucket
+
+val add_route : bucket -> bytes -> n -> bucket
+
+type meth =
+| Std of n
+| Custom of bytes
+
+val meth_eqb : meth -> meth -> bool
+
+type table = ((meth * bytes) * n) list
+
+val bucket_of : table -> meth -> bucket
+
+val find_literal : bucket -> bytes -> n option
+
+type params = (bytes * bytes) list
+
+val scan :
+  seg list -> bytes list -> nat -> bool -> params -> ((nat * params) * bytes
+  list) option
+
+val try_pattern : pattern -> bytes list -> (nat * params) option
+
+type rres =
+| Found of n * params
+| Fallback
+
+type best = (((nat * prec) * n) * params) option
+
+val better : nat -> prec -> best -> bool
+
+val step_pattern : bytes list -> best -> (pattern * n) -> best
+
+val match_route : table -> meth -> bytes -> rres
+
+val classify : bytes -> seg
+
+val path_segs : bytes -> bytes list
+
+val pattern_of : bytes -> seg list
+
+val matchb : seg list -> bytes list -> bool
+
+val lead_lits : seg list -> nat
+
+val final_rank : seg list -> nat
+
+val rank_ltb : seg list -> seg list -> bool
+
+val all_lit : seg list -> bool
+
+val trailing_dw : seg list -> bool
+
+val equivb : seg list -> seg list -> bool
+
+type route = seg list * n
+
+val register : route list -> seg list -> n -> route list
+
+val routes_of : table -> meth -> route list
+
+val wf_table : table -> bool
+
+val bindings : seg list -> bytes list -> params
+
+val best_of : route option -> route list -> route option
+
+val spec_route : table -> meth -> bytes -> rres
+
+type headers = { stored : (bytes * bytes) list; content_length : n option;
+                 chunked : bool; connection_close : bool; print_date : 
+                 bool }
+
+val new_headers : headers
+
+val cONTENT_LENGTH : bytes
+
+val tRANSFER_ENCODING : bytes
+
+val cONNECTION : bytes
+
+val trim_ows : bytes -> bytes
+
+val u64_MAX : n
+
+val parse_digits : n -> bytes -> n option
+
+val parse_content_length : bytes -> n option
+
+val has_token_loop : bytes -> bytes -> bool
+
+val add0 : headers -> bytes -> bytes -> headers
+
+val remove : headers -> bytes -> headers
+
+val replace : headers -> bytes -> bytes -> headers
+
+val set_content_length : headers -> n option -> headers
+
+val set_transfer_encoding_chunked : headers -> headers
+
+val set_connection_close : headers -> headers
+
+val get : headers -> bytes -> bytes option
+
+val get_all : headers -> bytes -> (bytes * bytes) list
+
+val get_count : headers -> nat
+
+val token_values : headers -> bytes -> bytes list
+
+type hop =
+| OAdd of bytes * bytes
+| OReplace of bytes * bytes
+| ORemove of bytes
+| OSetCL of n option
+| OSetChunked
+| OSetClose
+
+val hstep : headers -> hop -> headers
+
+val lower : bytes -> bytes
+
+val same_name : bytes -> bytes -> bool
+
+val strip_ows : bytes -> bytes
+
+val tokens : bytes -> bytes list
+
+val field_has_token : bytes -> bytes -> (bytes * bytes) -> bool
+
+val eval_chunked : (bytes * bytes) list -> bool
+
+val eval_close : (bytes * bytes) list -> bool
+
+val lookup_all : (bytes * bytes) list -> bytes -> (bytes * bytes) list
+
+val lookup_last : (bytes * bytes) list -> bytes -> bytes option
+
+val dec_value : n -> bytes -> n
+
+val cl_value : bytes -> n option
+
+val is_cl : bytes -> bool
+
+val store_step : (bytes * bytes) list -> hop -> (bytes * bytes) list
+
+val spec_cl_rev : hop list -> n option
+
+val spec_cl : hop list -> n option
